@@ -76,6 +76,13 @@ mut("pp-first-sticky", DPP, "level.is_first_line = level.is_first_line && !ends_
 mut("pp-pending-off-by-one", DPP, "        for _ in 0..self.pending_ws_only_indent_level {", "        for _ in 1..self.pending_ws_only_indent_level {", ["C14"])
 mut("rf-rename-free-node", ARN, "fn free_node(", "fn release_slot(", [], silent=True, extra=[(IDR, ".free_node(", ".release_slot(")],
     note="the crate-private retire function under another name")
+CARGO = "indextree/Cargo.toml"
+mut("feat-new-additive", CARGO, "[features]\n", "[features]\nextras = []\n", [], silent=True,
+    extra=[(ARN, "impl<T> Default for Arena<T> {", "#[cfg(feature = \"extras\")]\nimpl<T> Arena<T> {\n    /// Number of slots (live or removed).\n    pub fn slot_count(&self) -> usize {\n        self.nodes.len()\n    }\n}\n\nimpl<T> Default for Arena<T> {")],
+    note="a new cargo feature that only adds a method")
+mut("feat-new-changes-is-empty", CARGO, "[features]\n", "[features]\nextras = []\n", ["C17"],
+    extra=[(ARN, "    pub fn is_empty(&self) -> bool {\n", "    pub fn is_empty(&self) -> bool {\n        #[cfg(feature = \"extras\")]\n        if self.first_free_slot.is_some() {\n            return false;\n        }\n")],
+    note="a new cargo feature that changes an existing result")
 mut("serde-skip-last-free", ARN, "    last_free_slot: Option<usize>,\n}", "    #[cfg_attr(feature = \"deser\", serde(skip))]\n    last_free_slot: Option<usize>,\n}", ["C16"])
 mut("std-fast-path-count", ARN, "    pub fn count(&self) -> usize {\n        self.nodes.len()", "    pub fn count(&self) -> usize {\n        #[cfg(feature = \"std\")]\n        {\n            if self.nodes.is_empty() {\n                return 0;\n            }\n        }\n        self.nodes.len()", ["C17"])
 mut("par-iter-skip-first", ARN, "        self.nodes.par_iter()", "        self.nodes[1..].par_iter()", ["C17"])
